@@ -176,10 +176,18 @@ pub fn real_encode(bits: u64) -> Option<u64> {
     let t = p + 312; // value = M * 2^(4E-312), M = m53 << s
     let s = t.rem_euclid(4);
     let ex = (t - s) / 4;
-    if !(0..=127).contains(&ex) {
+    let mant = m53 << s; // < 2^56
+    if ex < 0 {
+        // below 16^-65: representable only with leading zero digits, and only if no set bit is dropped
+        let drop = 4 * (-ex) as u32;
+        if drop >= 56 || mant & ((1u64 << drop) - 1) != 0 {
+            return None;
+        }
+        return Some((sign << 63) | (mant >> drop));
+    }
+    if ex > 127 {
         return None;
     }
-    let mant = m53 << s; // < 2^56
     Some((sign << 63) | ((ex as u64) << 56) | mant)
 }
 /// Exact (correctly rounded, round-half-even) decoding of an 8-byte real to IEEE bits.
